@@ -178,6 +178,9 @@ def r2_no_significant_child_dropped(w):
                   'a %s child of a %s node is dropped by %s (loop in %s) on %d of %d evaluated paths and no table entry explains it: a token or construct that evaluation can '
                   'see would disappear (last branch assumptions %s)'
                   % (k, parent, last(fn), last(loop[0]), len(bad), len(grp.paths), [((a[3] or a[0]).rsplit('::', 1)[-1], a[4]) for a in bad[0].assumed[-3:] if len(a) > 4]))
+    # children may be removed only where the per-kind rules can see it: no element-dropping adaptor in front of a loop over syntax nodes
+    for ok, cons, key, why, loc in e2.filter_obligations(w):
+        (r.ok(cons, why) if ok else r.bad(cons, key, why, loc))
     return r
 
 
